@@ -386,3 +386,24 @@ func VerifC12_MixedWrite() {
 	vAssert(len(r.recs) == 2, "a caller did not return")
 	verifCheckDedup(r, u)
 }
+
+// VerifC12_WriteHas: a StoreChunk and a HasChunk for the same ID through the write queue,
+// concurrently, upstream outcomes chosen per call (the write may fail): the existence answer is
+// the result of an upstream HasChunk request made during the call - never an assumption drawn
+// from the write that is in flight.
+func VerifC12_WriteHas() {
+	vPreempt(2)
+	u := &verifUpstream{}
+	q := NewWriteDedupQueue(u)
+	r := &verifRecorder{}
+	chunk := NewChunk([]byte{7, 7})
+	id := chunk.ID()
+	var wg sync.WaitGroup
+	wg.Add(2)
+	go func() { defer wg.Done(); r.put(q, chunk) }()
+	go func() { defer wg.Done(); r.has(q, id) }()
+	wg.Wait()
+	vCover("all-callers-returned")
+	vAssert(len(r.recs) == 2, "a caller did not return")
+	verifCheckDedup(r, u)
+}
